@@ -1144,3 +1144,39 @@ Proof.
   destruct (fold_history_origin h [] [] (fun m0 d0 H => match H with end) m d Hm Hd) as [c [a [Hc [Ha [H1 [H2 H3]]]]]].
   exists c, a. auto.
 Qed.
+
+(* ================================================================ C14_no_check_use_gap *)
+Lemma read_data_one_access : forall E st v df, snd (read_data E st v df) = [(dpath df, data_site v df)].
+Proof.
+  intros E st v df. unfold read_data, bind.
+  assert (Hs : snd (st_get st (dpath df) (data_site v df)) = [(dpath df, data_site v df)]).
+  { unfold st_get. destruct (st (dpath df)) as [| |s' b]; try reflexivity. destruct (site_eqb _ _); reflexivity. }
+  destruct (fst (st_get st (dpath df) (data_site v df))) as [b|e]; simpl; rewrite Hs; [|reflexivity].
+  destruct v; destruct (dsum df); try destruct (N.eqb _ _); try destruct (parquet E b); reflexivity.
+Qed.
+
+Lemma data_stage_t_trace : forall E ts v dfs t tabs,
+  fst (data_stage_t E ts t v dfs) = Ok tabs -> List.length (snd (data_stage_t E ts t v dfs)) = List.length dfs.
+Proof.
+  intros E ts v dfs. induction dfs as [|df tl IH]; intros t tabs H; simpl in *; [reflexivity|].
+  apply bind_ok in H. destruct H as [y [Hy H]]. apply bind_ok in H. destruct H as [ys [Hys _]].
+  rewrite (bind_snd_ok _ _ _ _ _ Hy). rewrite (bind_snd_ok _ _ _ _ _ Hys). simpl.
+  rewrite !app_length. rewrite read_data_one_access. rewrite (IH _ _ Hys). simpl. rewrite Nat.add_0_r. reflexivity.
+Qed.
+
+Theorem no_check_use_gap : forall E ts v dfs t tabs,
+  fst (data_stage_t E ts t v dfs) = Ok tabs ->
+  List.length (snd (data_stage_t E ts t v dfs)) = List.length dfs /\
+  forall i df tab, nth_error dfs i = Some df -> nth_error tabs i = Some tab ->
+    exists b, cur_bytes (ts (t + i)%nat) (dpath df) = Some b /\ parquet E b = PqOk tab
+              /\ (v = true -> forall d, dsum df = Some d -> sha E b = d).
+Proof.
+  intros E ts v dfs t tabs H. split; [eapply data_stage_t_trace; eauto|].
+  revert t tabs H. induction dfs as [|df0 tl IH]; intros t tabs H i df tab Hdf Htab.
+  - destruct i; discriminate.
+  - simpl in H. apply bind_ok in H. destruct H as [y [Hy H]]. apply bind_ok in H. destruct H as [ys [Hys H]].
+    simpl in H. inversion H; subst tabs. destruct i as [|i]; simpl in Hdf, Htab.
+    + inversion Hdf; subst df0. inversion Htab; subst y. rewrite Nat.add_0_r.
+      apply read_data_ok in Hy. destruct Hy as [b [Hb [Hp [_ Hs]]]]. exists b. auto.
+    + rewrite Nat.add_succ_r. apply (IH (S t) ys Hys i df tab Hdf Htab).
+Qed.
